@@ -40,6 +40,10 @@ BUILTIN: T.Dict[str, dict] = {
     'default_library': {'type': 'combo', 'choices': ['shared', 'static', 'both'], 'value': 'shared'},
     'buildtype': {'type': 'combo', 'choices': ['plain', 'debug', 'debugoptimized', 'release', 'minsize', 'custom'],
                   'value': 'debug'},
+    # "Details for buildtype": buildtype "sets" these two; both can also be given on their own, and an explicit value
+    # given together with buildtype wins (the expansion of buildtype only provides their defaults)
+    'debug': {'type': 'boolean', 'value': True},
+    'optimization': {'type': 'combo', 'choices': ['plain', '0', 'g', '1', '2', '3', 's'], 'value': '0'},
 }
 # "Per subproject (since)" column of the same table
 PER_SUBPROJECT = ('werror', 'warning_level', 'default_library')
@@ -259,6 +263,12 @@ class LifeModel:
             else:
                 bval[n] = d['value']
                 last[n] = ev(n, 'default')
+        if bval['buildtype'] != BUILTIN['buildtype']['value'] and bval['buildtype'] in BUILDTYPE_TABLE:
+            dbg, opt = BUILDTYPE_TABLE[bval['buildtype']]
+            if 'debug' not in parsed:
+                bval['debug'] = dbg
+            if 'optimization' not in parsed:
+                bval['optimization'] = opt
         over = {}
         for n in PER_SUBPROJECT:
             k = SP + ':' + n
@@ -364,6 +374,13 @@ class LifeModel:
         """configure / reconfigure semantics; raises Invalid without touching the state."""
         parsed = self._check_cmd(D, U)
         self.apply_edits()
+        if 'buildtype' in parsed:
+            # one command line: buildtype is applied first, explicit debug / optimization of the same command override
+            # what it expands to; a buildtype that does not change expands to nothing ("keeps the last value the user gave")
+            parsed = {'buildtype': parsed['buildtype'], **{k: v for k, v in parsed.items() if k != 'buildtype'}}
+            bt = parsed['buildtype']
+            if bt != self.bval['buildtype'] and bt in BUILDTYPE_TABLE:
+                self.bval['debug'], self.bval['optimization'] = BUILDTYPE_TABLE[bt]
         for k, v in parsed.items():
             self.user_assignments += 1
             self.note(k, 'user-set' + self.same_as_hidden(k, v))
@@ -408,10 +425,6 @@ class LifeModel:
             return self.val[key]
         if key in self.bval:
             return self.bval[key]
-        if key == 'debug':
-            return BUILDTYPE_TABLE[self.bval['buildtype']][0]
-        if key == 'optimization':
-            return BUILDTYPE_TABLE[self.bval['buildtype']][1]
         if key.startswith(SP + ':'):
             n = key[len(SP) + 1:]
             if n in PER_SUBPROJECT:
@@ -437,8 +450,6 @@ class LifeModel:
             out[k] = e
         for n in BUILTIN:
             out[n] = {'type': BUILTIN[n]['type'], 'value': self.bval[n], 'builtin': True}
-        out['debug'] = {'type': 'boolean', 'value': self.eff('debug'), 'builtin': True}
-        out['optimization'] = {'type': 'combo', 'value': self.eff('optimization'), 'builtin': True}
         return out
 
     def category(self, key: str) -> str:
